@@ -4,8 +4,26 @@ import random
 import re
 
 from .. import common as C
+from .. import genprop as GP
 from .. import proj as P
 from .. import scancheck as S
+
+KNOWN_BARE = "C05/bare-hash-comment-next-to-a-body"
+KNOWN_BLOCK = "C05/block-comment-then-directive-on-one-line-after-a-body"
+BARE_RE = re.compile(r"#[ \t]*(␍?\n)")
+BLOCK_SAME_LINE_RE = re.compile(r"###[ \t]*[^\s#␍]")
+
+
+def take(prop, cls):
+    return prop in ("C05", "C08xC05", "C07xC08xC05")
+
+
+def known_bare(cls, what, doc):
+    return KNOWN_BARE if BARE_RE.search(doc) else None
+
+
+def known_block(cls, what, doc):
+    return KNOWN_BLOCK if BLOCK_SAME_LINE_RE.search(doc) else None
 
 KW = ["JSIGHT", "INFO", "Title", "Version", "Description", "SERVER", "BaseUrl", "URL", "GET", "POST", "PUT", "PATCH", "DELETE",
       "Body", "Request", "Path", "Headers", "Query", "TYPE", "ENUM", "MACRO", "PASTE", "INCLUDE", "Protocol", "Method", "Params",
@@ -13,29 +31,39 @@ KW = ["JSIGHT", "INFO", "Title", "Version", "Description", "SERVER", "BaseUrl", 
 DIR_RE = re.compile(r"^([ \t]*)(" + "|".join(KW) + r"|[1-5][0-9][0-9])(?=[ \t]|$)")
 
 
-def directive_lines(text):
-    """indices of lines that start a directive and are not the first line after a Description keyword line's
-    text block (whose preceding lines are content)"""
+def directive_lines(text, lex=None):
+    """indices of the lines on which a directive starts, as the implementation's own lexer sees the (accepted) original:
+    the line holds a keyword lexeme and nothing but blanks before it.  Lines inside description text, schema bodies and
+    block comments are therefore never eligible"""
     lines = text.split("\n")
+    starts = []
+    off = 0
+    for l in lines:
+        starts.append(off)
+        off += len(l) + 1
     out = []
-    in_desc = False
-    depth = 0   # inside a multi-line schema body: brace depth (keyword-looking words inside JSON bodies are rare but possible)
-    for i, l in enumerate(lines):
-        m = DIR_RE.match(l)
-        if m and depth == 0:
-            if not in_desc:
-                out.append(i)
-            in_desc = m.group(2) == "Description"
-        else:
-            depth += l.count("{") + l.count("[") - l.count("}") - l.count("]")
-            if depth < 0:
-                depth = 0
+    if lex is None:
+        lex = C.run_lines("harness", "fn", ["lex " + C.hx(text.encode("latin1"))])[0]
+    import bisect
+    prev_kind = None
+    for item in lex.split("|")[0].split(","):
+        if not item:
+            continue
+        k, b, e = item.split(":")
+        pk, prev_kind = prev_kind, k
+        if k != "0" or pk == "5":
+            # not a keyword, or the directive follows free description text: whatever is put before it would join the text
+            continue
+        b = int(b)
+        li = bisect.bisect_right(starts, b) - 1
+        if lines[li][: b - starts[li]].strip(" \t") == "" and li not in out:
+            out.append(li)
     return lines, out
 
 
-def transforms(rng, text):
+def transforms(rng, text, lex=None):
     """meaning-preserving rewrites of one document; yields (name, new_text)"""
-    lines, dl = directive_lines(text)
+    lines, dl = directive_lines(text, lex)
     yield "crlf", text.replace("\n", "\r\n")
     yield "cr", text.replace("\n", "\r")
     if not dl:
@@ -88,15 +116,18 @@ def run(res, tier, seed, replay):
     files = [f for f in S.fixture_files() if "/err" not in f and "include" not in f.lower()]
     files = rng.sample(files, 150 if quick else len(files))
     cases = []
-    if replay:
+    if replay and "gen_seed" in json.load(open(replay)):
+        cases = []
+    elif replay:
         r = json.load(open(replay))
         cases = [("replay", r["transform"], C.unhx(r["original"]).decode("latin1"), C.unhx(r["rewritten"]).decode("latin1"))]
     else:
-        for f in files:
-            t = open(f, "rb").read().decode("latin1")
+        texts = [open(f, "rb").read().decode("latin1") for f in files]
+        lexes = C.run_sharded("harness", "fn", ["lex " + C.hx(t.encode("latin1")) for t in texts])
+        for f, t, lx in zip(files, texts, lexes):
             if "\r" in t:
                 continue
-            for name, nt in transforms(rng, t):
+            for name, nt in transforms(rng, t, lx):
                 if nt != t:
                     cases.append((f, name, t, nt))
     lines0 = [P.run_line("out=sha", [("a.jst", t.encode("latin1"))]) for (_, _, t, _) in cases]
@@ -126,5 +157,24 @@ def run(res, tier, seed, replay):
                       {"transform": name, "file": f, "original": C.hx(t.encode("latin1")), "rewritten": C.hx(nt.encode("latin1")), "outcome": b[:300]})
     if bad:
         return
+    if not replay or "gen_seed" in json.load(open(replay)):
+        # generated API models under random trivia plans (comments, blank lines, indentation, line ends, quoting, parentheses,
+        # block annotations), also cut into includes and macros
+        quick = tier == "quick"
+        runs = [("plain", False, take, None, 100 if quick else 1000),
+                ("with '#' inside line comments and quoted INCLUDE names", ["hash-in-line-comment", "quote-include"], take, None, 50 if quick else 400),
+                ("with bare '#' comments", ["empty-line-comment"], take, known_bare, 50 if quick else 400),
+                ("with a directive on the line a block comment ends on", ["block-comment-same-line"], take, known_block, 50 if quick else 400)]
+        if replay:
+            rpj = json.load(open(replay))
+            runs = [r for r in runs if (r[1] or False) == rpj.get("risky", False)] or runs[:1]
+        gbad = []
+        for label, risky, tk, kr, n in runs:
+            last, b = GP.run(res, "C05", tier, seed, replay, pr, tk, kr, risky=risky, n=n, label=label)
+            gbad += b
+        for msg, rp, found in gbad[:4]:
+            res.violation("a rewriting that does not change what the document says changes the result: " + msg, rp, found_input=found)
+        if gbad:
+            return
     if not pr.proof_ok:
         res.violation("proof obligation no longer checks: %s" % pr.proof_err, {"obligation": pr.proof_err, "theorems": pr.theorems}, found_input=False)
